@@ -243,7 +243,39 @@ def unit_unicode(U):
                     "str(feature) == the eight columns joined by tabs ('.' for None), the attribute column reconstructed from (attributes, dialect, keep_order, sort_attribute_values), then the extra columns", p.pc, goal, {}, replay=replay)
 
 
-UNITS = [("columns", unit_columns), ("step_row", unit_step_row), ("order", unit_order), ("returner", unit_returner), ("unicode", unit_unicode)]
+def unit_bounded_positions(U):
+    """bounded: the same line text is stored the same way wherever it sits in the file - inside the window the dialect is
+    inferred from (the first checklines + 1 feature lines) or after it"""
+    fails, cases = [], 0
+    texts = ["ID=%s;Note=kinase, putative", "ID=%s;Note=a,b;Name=x y", 'gene_id "%s"; note "a, b";', "ID=%s;Dbxref=X:1, Y:2;Alias=p%%2Cq"]
+    for t in texts:
+        for checklines in (1, 3):
+            n = checklines + 4
+            lines = ["c\ts\tgene\t%d\t%d\t.\t+\t.\t%s" % (10 * i + 1, 10 * i + 5, t % ("k%d" % i)) for i in range(n)]
+            cases += 1
+            try:
+                import warnings
+                with warnings.catch_warnings():
+                    warnings.simplefilter("ignore")
+                    db = gffutils.create_db("\n".join(lines) + "\n", ":memory:", from_string=True, checklines=checklines, keep_order=True,
+                                            disable_infer_genes=True, disable_infer_transcripts=True, id_spec=None)
+                feats = list(db.all_features())
+                shapes = []
+                for f in feats:
+                    d = {k: list(v) for k, v in f.attributes.items() if k not in ("ID", "gene_id")}
+                    shapes.append(d)
+                printed = [str(f).split("\t")[8] for f in feats]
+                norm = [p_.replace(f.attributes.get("ID", f.attributes.get("gene_id", ["?"]))[0], "@") for p_, f in zip(printed, feats)]
+                if len(feats) != n or any(x != shapes[0] for x in shapes) or any(x != norm[0] for x in norm):
+                    fails.append({"case": {"attribute text": t, "checklines": checklines, "lines": n}, "expected": "every line stored and printed alike",
+                                  "observed": {"values per line": shapes, "printed": printed}})
+            except Exception as ex:
+                fails.append({"case": {"attribute text": t, "checklines": checklines}, "expected": "import succeeds", "observed": repr(ex)})
+    U.bounded_result("C01.bounded.positions", "identical attribute text is stored (values) and printed identically before and after the dialect-inspection window",
+                     "%d attribute texts (comma followed by blank, multi-values, GTF) x checklines in {1, 3}, checklines + 4 lines each" % len(texts), cases, fails, distinct=cases)
+
+
+UNITS = [("bounded.positions", unit_bounded_positions), ("columns", unit_columns), ("step_row", unit_step_row), ("order", unit_order), ("returner", unit_returner), ("unicode", unit_unicode)]
 try:
     from standins import C01 as _S
     UNITS = UNITS + list(_S.UNITS)
